@@ -113,7 +113,8 @@ def canon_errors(resp):
 
 
 def same_response(a, b):
-    return json.dumps(a.get("data"), default=repr) == json.dumps(b.get("data"), default=repr) and \
+    return re.sub(r"0x[0-9a-fA-F]+", "0x", json.dumps(a.get("data"), default=repr)) == \
+        re.sub(r"0x[0-9a-fA-F]+", "0x", json.dumps(b.get("data"), default=repr)) and \
         canon_errors(a) == canon_errors(b)
 
 
@@ -224,11 +225,17 @@ def main(tier_, replay=None):
     files, meta = [], []
     for si in range(n_schemas + 1):
         if si == 0:
-            s = c08.handwritten_schema()
+            s = execgen.add_error_path_types(c08.handwritten_schema())
             groups = hand_groups(rng)
         else:
-            s = execgen.gen_exec_schema(rng, n_objects=rng.randrange(2, 4))
+            s = execgen.add_error_path_types(execgen.gen_exec_schema(rng, n_objects=rng.randrange(2, 4)))
             groups = gen_groups(rng, s, n_groups)
+        # requests that fail in the engine's error paths (suggestion lists, ...), each several times per group
+        ep = execgen.error_path_cases()
+        for _ in range(2 if tier_ == "quick" else 4):
+            pick = rng.sample(ep, 2)
+            grp = [dict(pick[0]), dict(pick[1]), dict(pick[0]), dict(ep[-1]), dict(pick[0])]
+            groups.append(grp)
         results = asyncio.run(explore(s, groups, rng, strategies))
         SAMPLES.extend(results[:1])
         items = []
